@@ -19,9 +19,10 @@ func init() {
 			"A.next != Invalid), reset to InvalidIndex, free-list push/pop; the parent's first/last indices are updated under the matching first/last tests and the " +
 			"moved node's parent index is set (detach resets all three links); (R3) newObject grows the pool only on the empty-free-list side, otherwise pops the head; it " +
 			"resets all five links; free detaches first when a parent exists, refuses objects with children, marks the freed opcode and pushes; ObjectAt returns nil for " +
-			"out-of-range and freed slots.",
+			"out-of-range and freed slots; (R4) Find resolves absolute paths downward from the root, moves one parent up per '^', resolves caret remainders and multi-segment names " +
+			"downward only (findRelative, never its own upward search) and uses the parent-chain search only for single-segment names.",
 		EnumRule:    "obligations per rule and construct (function + store / idiom)",
-		Assumptions: []string{"lookup semantics of Find/findRelative, crash-freedom of Find on malformed expressions and the global induction over histories are not decided"},
+		Assumptions: []string{"segment matching inside findRelative, crash-freedom of Find on malformed expressions and the global induction over histories are not decided"},
 		Controls: []Control{
 			{Name: "drop arg.prevSiblingIndex in append", File: "kernel/device/acpi/aml/obj_tree.go", Old: "\tLastArg.nextSiblingIndex = arg.index\n\targ.prevSiblingIndex = LastArg.index\n", New: "\tLastArg.nextSiblingIndex = arg.index\n", Expect: "C13.R2"},
 			{Name: "parser writes nextSiblingIndex", File: "kernel/device/acpi/aml/parser.go", Old: "\t\ttermObj = p.objTree.ObjectAt(curObj.lastArgIndex)\n\t\t\tp.objTree.detach(curObj, termObj)", New: "\t\ttermObj = p.objTree.ObjectAt(curObj.lastArgIndex)\n\t\t\ttermObj.nextSiblingIndex = InvalidIndex\n\t\t\tp.objTree.detach(curObj, termObj)", Expect: "C13.R1"},
@@ -34,6 +35,8 @@ func init() {
 			{Name: "ObjectAt returns freed objects", File: "kernel/device/acpi/aml/obj_tree.go", Old: "\tif obj.opcode == pOpIntFreedObject {\n\t\treturn nil\n\t}\n\n\treturn obj", New: "\treturn obj", Expect: "C13.R3"},
 			{Name: "free keeps children reachable", File: "kernel/device/acpi/aml/obj_tree.go", Old: "\tif obj.firstArgIndex != InvalidIndex || obj.lastArgIndex != InvalidIndex {\n\t\tpanic(\"aml.ObjectTree: attempted to free object that still contains argument references\")\n\t}\n", New: "", Expect: "C13.R3"},
 			{Name: "reused slot keeps its old parent link", File: "kernel/device/acpi/aml/obj_tree.go", Old: "\tobj.parentIndex = InvalidIndex\n\tobj.prevSiblingIndex = InvalidIndex\n\tobj.nextSiblingIndex = InvalidIndex\n\tobj.firstArgIndex", New: "\tobj.prevSiblingIndex = InvalidIndex\n\tobj.nextSiblingIndex = InvalidIndex\n\tobj.firstArgIndex", Expect: "C13.R3"},
+			{Name: "caret remainder searched upward", File: "kernel/device/acpi/aml/obj_tree.go", Old: "\t\t\t\treturn tree.findRelative(scopeIndex, expr[startIndex:])", New: "\t\t\t\treturn tree.Find(scopeIndex, expr[startIndex:])", Expect: "C13.R4"},
+			{Name: "absolute paths resolved from the current scope", File: "kernel/device/acpi/aml/obj_tree.go", Old: "\t\treturn tree.findRelative(0, expr[1:])", New: "\t\treturn tree.findRelative(scopeIndex, expr[1:])", Expect: "C13.R4"},
 			{Name: "append does not set the parent", File: "kernel/device/acpi/aml/obj_tree.go", Old: "func (tree *ObjectTree) append(obj, arg *Object) {\n\targ.parentIndex = obj.index\n", New: "func (tree *ObjectTree) append(obj, arg *Object) {\n", Expect: "C13.R2"},
 		},
 	})
@@ -172,6 +175,9 @@ func runC13(c *Ctx) {
 
 	// ================= R3 =================
 	x.freeList()
+
+	// ================= R4 =================
+	x.findDispatch()
 }
 
 // pairing checks the sibling-link idioms of one function.
@@ -670,4 +676,155 @@ func (x *c13) freeList() {
 		}
 	}
 	c.ok("C13.R3", "freed-mark-writers aml", "pOpIntFreedObject is stored only by ObjectTree.free")
+}
+
+// C13.R4: dispatch structure of ObjectTree.Find. Absolute paths are resolved
+// downward from the root, each '^' moves one parent up (InvalidIndex ends the
+// lookup), the remainder after the carets and multi-segment names are resolved
+// downward only (findRelative), and only single-segment names use the upward
+// search through the parent chain.
+func (x *c13) findDispatch() {
+	c, m := x.c, x.m
+	c.floor("C13.R4", 3)
+	const aml = "device/acpi/aml"
+	find := m.lookupMethod(aml, "ObjectTree", "Find")
+	rel := m.lookupMethod(aml, "ObjectTree", "findRelative")
+	if find == nil || rel == nil {
+		c.unresolved("C13.R4", "ObjectTree.Find / findRelative")
+		return
+	}
+	g := newIG(m, find, nil)
+	exprP, scopeP := paramNamed(find, "expr"), paramNamed(find, "scopeIndex")
+	nameLen, _ := namedConstUint(m, aml, "amlNameLen")
+	// facts about expr[k]
+	isExprByte := func(v ssa.Value, idxConst int64) bool {
+		ld, ok := stripConv(v).(*ssa.UnOp)
+		if !ok || ld.Op != token.MUL {
+			return false
+		}
+		ia, ok := ld.X.(*ssa.IndexAddr)
+		if !ok || ia.X != ssa.Value(exprP) {
+			return false
+		}
+		if idxConst < 0 {
+			return true
+		}
+		k, ok := constInt64(ia.Index)
+		return ok && k == idxConst
+	}
+	firstIs := func(facts []Fact, ch int64) bool {
+		return hasFact(facts, func(f Fact) bool {
+			return cmpMatch(f, token.EQL, func(v ssa.Value) bool { return isExprByte(v, 0) }, func(v ssa.Value) bool { k, ok := constInt64(v); return ok && k == ch })
+		})
+	}
+	firstIsNot := func(facts []Fact, ch int64) bool {
+		return hasFact(facts, func(f Fact) bool {
+			return cmpMatch(f, token.NEQ, func(v ssa.Value) bool { return isExprByte(v, 0) }, func(v ssa.Value) bool { k, ok := constInt64(v); return ok && k == ch })
+		})
+	}
+	// self recursion is only acceptable on the absolute-path side
+	bad := ""
+	for _, n := range g.callNodes(find) {
+		facts := g.FactsAt(n)
+		if !firstIs(facts, '\\') {
+			bad = "Find calls itself outside the absolute-path case: a name that must be resolved downward only (after '^' prefixes or with several segments) falls back to the upward search of single-segment names"
+		}
+	}
+	relCalls := g.callNodes(rel)
+	var rootCall, caretCall, multiCall int = -1, -1, -1
+	for _, n := range relCalls {
+		facts := g.FactsAt(n)
+		switch {
+		case firstIs(facts, '\\'):
+			rootCall = n
+		case firstIs(facts, '^') || hasFact(facts, func(f Fact) bool {
+			return cmpMatch(f, token.NEQ, func(v ssa.Value) bool { return isExprByte(v, -1) }, func(v ssa.Value) bool { k, ok := constInt64(v); return ok && k == '^' })
+		}) && firstIsNot(facts, '\\') && !hasFact(facts, func(f Fact) bool { return f.Y != nil && f.Op == token.GTR }):
+			caretCall = n
+		default:
+			multiCall = n
+		}
+	}
+	if bad == "" {
+		switch {
+		case rootCall < 0:
+			bad = "no downward lookup from the root for absolute paths"
+		case !isZeroConst(g.callArgs(rootCall)[1]):
+			bad = "absolute paths are not resolved from the root scope (index 0)"
+		case caretCall < 0:
+			bad = "the remainder after '^' prefixes is not resolved with findRelative"
+		case multiCall < 0:
+			bad = "multi-segment names are not resolved with findRelative"
+		case g.callArgs(multiCall)[1] != ssa.Value(scopeP):
+			bad = "multi-segment names are not resolved from the starting scope"
+		}
+	}
+	c.check(bad == "", "C13.R4", "downward-only "+m.fnName(find), "absolute paths from the root, caret remainders and multi-segment names through findRelative only", bad, m.pos(find.Pos()))
+	// multi-segment case is guarded by len(expr) > amlNameLen; single segment by == amlNameLen
+	bad = ""
+	if multiCall >= 0 {
+		if !hasFact(g.FactsAt(multiCall), func(f Fact) bool {
+			if f.Y == nil || f.Op != token.GTR {
+				return false
+			}
+			k, ok := constUint64(f.Y)
+			call, isCall := f.X.(*ssa.Call)
+			if !ok || !isCall || k != nameLen {
+				return false
+			}
+			bi, isB := call.Common().Value.(*ssa.Builtin)
+			return isB && bi.Name() == "len" && call.Common().Args[0] == ssa.Value(exprP)
+		}) {
+			bad = "the downward-only lookup of multi-segment names is not selected by len(expr) > amlNameLen"
+		}
+	}
+	// each caret moves to the parent: scope = ObjectAt(scope).parentIndex, Invalid ends the lookup
+	parentStep := false
+	for _, in := range g.Ins {
+		if phi, ok := in.(*ssa.Phi); ok && phi.Comment == "scopeIndex" {
+			for _, e := range phi.Edges {
+				if b, f, ok := loadedField(e); ok && f == x.parent {
+					if call, ok := b.(*ssa.Call); ok && m.callee(call.Common()) == x.objectAt {
+						if a := call.Common().Args[1]; a == ssa.Value(phi) || a == ssa.Value(scopeP) {
+							parentStep = true
+						}
+					}
+				}
+			}
+		}
+	}
+	if bad == "" && !parentStep {
+		bad = "a '^' prefix does not move the scope to ObjectAt(scope).parentIndex"
+	}
+	c.check(bad == "", "C13.R4", "caret-and-length "+m.fnName(find), "'^' moves to the parent scope; len(expr) > amlNameLen selects the downward-only lookup", bad, m.pos(find.Pos()))
+	// the single-segment search walks the parent chain and compares all amlNameLen bytes
+	upward := false
+	for _, in := range g.Ins {
+		if phi, ok := in.(*ssa.Phi); ok && phi.Comment == "nextScopeIndex" {
+			for _, e := range phi.Edges {
+				if _, f, ok := loadedField(e); ok && f == x.parent {
+					upward = true
+				}
+			}
+		}
+	}
+	cmpAll := hasFactAnywhere(g, func(f Fact) bool {
+		if f.Y == nil || f.Op != token.LSS {
+			return false
+		}
+		k, ok := constUint64(f.Y)
+		_, isPhi := f.X.(*ssa.Phi)
+		return ok && k == nameLen && isPhi
+	})
+	c.check(upward && cmpAll, "C13.R4", "upward-search "+m.fnName(find), "single-segment names are searched in the scope and then each enclosing scope, comparing all amlNameLen bytes",
+		"the single-segment search does not walk the parent chain comparing all name bytes", m.pos(find.Pos()))
+}
+
+func hasFactAnywhere(g *IG, pred func(Fact) bool) bool {
+	for _, f := range g.AllEdgeFacts() {
+		if pred(f) {
+			return true
+		}
+	}
+	return false
 }
